@@ -101,8 +101,10 @@ def new_value(rng, mo, klass):
             return sel
         return rng.choice(alts)
     if pt == "strings" or t is None:
-        n = rng.choice([1, 2, 3])
-        out = [rand_str(rng) for _ in range(n)]
+        n = rng.choice([1, 1, 2, 3])
+        # incl. elements that spell None/Auto in any letter case (the readers take a lone unquoted one as the atom)
+        out = [rng.choice(["none", "NONE", "auto", "AUTO", "nOnE", "None", "Auto", "nonesuch", "automatic"])
+               if rng.random() < 0.2 else rand_str(rng) for _ in range(n)]
         return out
     if pt == "words":
         out = []
